@@ -94,8 +94,30 @@ def cases(tier):
         yield dict(big="atoms-99998-plus-2-chains", fmt="mmCIF")
 
 
+def tool_cases(tier):
+    """splitter.main / unifier.main with -f PDB on mmCIF input that may need fitting (the tools named in the property's observe_at)."""
+    for nch, idlen, resmode, serial0, icodes, models in itertools.product((1, 2, 3), (1, 2, 4, "mix-first", "mix-last"), ("small", "9999", "10000", "12345", "negative"),
+                                                                          (1, 99990, 100000), (False, True), (1, 2)):
+        if str(idlen).startswith("mix") and nch == 1:
+            continue
+        if tier == "quick" and nch == 3 and idlen in (1, 4):
+            continue
+        base = dict(nch=nch, idlen=idlen, resmode=resmode, serial0=serial0, icodes=icodes, models=models, apr=2, extras=False, fmt="mmCIF")
+        yield dict(base, tool="splitter")
+        if models == 1:
+            yield dict(base, tool="unifier")
+    for nch in (62, 63):
+        for idlen in (1, 2):
+            base = dict(nch=nch, idlen=idlen, resmode="small", serial0=1, icodes=False, models=1, apr=1, extras=False, fmt="mmCIF")
+            yield dict(base, tool="splitter")
+            yield dict(base, tool="unifier")
+    yield dict(big="chain-10000-residues", fmt="mmCIF", tool="splitter")
+    if tier != "quick":
+        yield dict(big="chain-10000-residues", fmt="mmCIF", tool="unifier")  # ~1 min: the unifier walks every residue
+
+
 def families(tier):
-    return [("tables", lambda: cases(tier), 1)]
+    return [("tables", lambda: cases(tier), 1), ("tools", lambda: tool_cases(tier), 1)]
 
 
 def big_table(kind):
@@ -158,6 +180,8 @@ def run_case(case):
     else:
         t = make_table(case["nch"], case["idlen"], case["resmode"], case["serial0"], case["icodes"], case["models"], case["apr"], case.get("extras", False))
     out = []
+    if "tool" in case:
+        return run_tool(case, t, parser_v2, df_view)
     if case["fmt"] == "PDB":
         r = observe(parser_v2.parse_pdb_atoms, enumio.emit_pdb(t))
     else:
@@ -257,3 +281,134 @@ def check_fitted(t, fitted, parser_v2, df_view, out):
     back = norm_view(df_view(rb[1]))
     if back != got:
         out.append(viol("fitted:pdb-roundtrip", "written and re-read fitted table differs", None, None))
+
+
+def check_renamed(want, got, out, prefix, ordered):
+    """want/got: normalised views. got must be want up to serial renumbering and a one-to-one, grouping-preserving chain/residue renaming, within PDB limits."""
+    if len(got) != len(want):
+        out.append(viol(prefix + ":atom-count", "output has %d atoms, input %d" % (len(got), len(want))))
+        return
+    if not ordered:
+        key = lambda r: (r[15], r[8], r[9], r[10])
+        if len(set(map(key, want))) != len(want):
+            return  # coordinates not unique: cannot match atoms without order (not generated)
+        gi = {key(r): r for r in got}
+        if set(gi) != set(map(key, want)):
+            out.append(viol(prefix + ":atoms-differ", "output atoms (by model and coordinates) differ from the input atoms"))
+            return
+        got = [gi[key(r)] for r in want]
+    F = enumio.FIELDS
+    chain_map, res_map = {}, {}
+    for g, w in zip(got, want):
+        for k, fld in enumerate(F):
+            if fld in ("serial", "chain", "resseq", "icode"):
+                continue
+            if g[k] != w[k]:
+                out.append(viol(prefix + ":field-changed:" + fld, "output changed %s of atom %s: %r -> %r" % (fld, w[1], w[k], g[k])))
+                return
+        gs, gc, gr, gi_ = g[1], g[5], g[6], g[7]
+        if gs is None or gs > 99999 or gs < 1:
+            out.append(viol(prefix + ":serial-limit", "serial %r outside PDB limits" % gs))
+            return
+        if gc is None or len(gc) != 1:
+            out.append(viol(prefix + ":chain-limit", "chain id %r is not one character" % gc))
+            return
+        if gr is None or gr > 9999:
+            out.append(viol(prefix + ":resseq-limit", "residue number %r outside PDB limits" % gr))
+            return
+        if chain_map.setdefault(w[5], gc) != gc:
+            out.append(viol(prefix + ":chain-grouping", "chain %r mapped to two ids" % w[5]))
+            return
+        key2 = (w[5], w[6], w[7])
+        if res_map.setdefault(key2, (gc, gr, gi_)) != (gc, gr, gi_):
+            out.append(viol(prefix + ":residue-grouping", "residue %r mapped to two identities" % (key2,)))
+            return
+    if len(set(chain_map.values())) != len(chain_map):
+        out.append(viol(prefix + ":chain-not-injective", "two chains share a new id", chain_map, None))
+    if len(set(res_map.values())) != len(res_map):
+        out.append(viol(prefix + ":residue-not-injective", "two residues share a new identity", None, None))
+    serials = [g[1] for g in got]
+    if len(set(serials)) != len(serials):
+        out.append(viol(prefix + ":serial-repeated", "serial numbers repeat", None, None))
+
+
+def run_tool(case, t, parser_v2, df_view):
+    """splitter.main / unifier.main -f PDB in-process on the emitted mmCIF text: per model, a PDB file that is the model up to a proper renaming, or no file and an
+    error message exactly when the reference says no fit exists; never an exception."""
+    import contextlib
+    import io
+    import os
+    import shutil
+    import sys
+
+    from mc.engine import scratch_dir
+    from mc.props.c09 import norm_view
+
+    tool = case["tool"]
+    out = []
+    sd = scratch_dir()
+    src = os.path.join(sd, "tool_in.cif")
+    with open(src, "w") as f:
+        f.write(enumio.emit_cif(t))
+    od = os.path.join(sd, "tool_out")
+    shutil.rmtree(od, ignore_errors=True)
+    if tool == "splitter":
+        from rnapolis import splitter as mod
+    else:
+        from rnapolis import unifier as mod
+    old = sys.argv
+    sys.argv = [tool, "-o", od, "-f", "PDB", src]
+    buf, err = io.StringIO(), io.StringIO()
+    try:
+        with contextlib.redirect_stdout(buf), contextlib.redirect_stderr(err):
+            r = observe(mod.main)
+    finally:
+        sys.argv = old
+    if r[0] == "exc" and not r[1].startswith("exception:SystemExit"):
+        return dict(nontrivial=True, outcome=tool + ":raises", violations=[viol("%s:%s" % (tool, r[1]), "%s.main raised %s" % (tool, r[2]))])
+    models = []
+    for a in t:
+        if a["model"] not in models:
+            models.append(a["model"])
+    outcomes = []
+    for m in models:
+        tm = [a for a in t if a["model"] == m]
+        fits = ref_fits(tm)
+        feasible, why = ref_feasible(tm)
+        if fits:
+            feasible, why = True, None  # a table within the limits needs no renaming, whatever its chain count
+        name = "tool_in_model_%d.pdb" % m if tool == "splitter" else "tool_in.pdb"
+        path = os.path.join(od, name)
+        exists = os.path.exists(path)
+        if not feasible:
+            outcomes.append("refusal:" + why)
+            if exists and open(path).read().strip():
+                out.append(viol("%s:no-refusal:%s" % (tool, why), "no fit exists (%s) but %s wrote %s" % (why, tool, name), None, "no file, an error message"))
+            elif "rror" not in err.getvalue():
+                out.append(viol("%s:silent-refusal:%s" % (tool, why), "no fit exists (%s); %s wrote nothing and reported nothing" % (why, tool)))
+            continue
+        outcomes.append("already-fits" if fits else "renaming")
+        if not exists:
+            out.append(viol("%s:missing-file:%s" % (tool, "fits" if fits else "needs-fit"), "no output file %s although a fit exists; stderr: %s" % (name, err.getvalue()[:300])))
+            continue
+        txt = open(path).read()
+        rb = observe(parser_v2.parse_pdb_atoms, txt)
+        if rb[0] == "exc":
+            out.append(viol("%s:read-back:%s" % (tool, rb[1]), "reading %s raised %s" % (name, rb[2])))
+            continue
+        got = norm_view(df_view(rb[1]))
+        want = norm_view(enumio.table_view(tm))
+        if tool == "unifier":
+            # the unifier writes one structure without MODEL records
+            want = [w[:15] + (1,) for w in want]
+            got = [g[:15] + (1,) for g in got]
+        check_renamed(want, got, out, tool + ":out", ordered=(tool == "splitter"))
+        atoms, problems, events = enumio.read_pdb_layout(txt)
+        problems += enumio.check_pdb_structure(events)
+        if problems:
+            from mc.props.c09 import _layout_kind
+            out.append(viol("%s:layout:%s" % (tool, _layout_kind(problems[0])), "%s PDB output: %s" % (tool, "; ".join(problems[:3]))))
+    u = {}
+    for v in out:
+        u.setdefault(v["signature"], v)
+    return dict(nontrivial="renaming" in outcomes or any(o.startswith("refusal") for o in outcomes), outcome="%s:%s" % (tool, "+".join(outcomes)), violations=list(u.values()))
